@@ -469,6 +469,38 @@ def gen_dualstack(rng):
     return {"mode": "net", "cfg": {"hosts": hosts}, "script": script, "flavour": "dualstack"}
 
 
+def gen_passive_close(rng, variant=None):
+    """two hosts; a connection is closed from one end, the other end (the passive closer) follows,
+    the hosts fall silent, then the freed (address, port) pairs are bound again: every closed
+    socket must have released its binding.  No packet is dropped and none is forged, so the FIN
+    exchange completes inside the pump.  variant 2: the child is reset while still half-open,
+    the host stays idle, the listener is closed and its address bound again."""
+    hosts = [["10.0.0.1", "10.0.0.2"], ["10.0.1.1"]]
+    variant = rng.randrange(3) if variant is None else variant
+    port = rng.choice([5000, 6000, 6001])
+    la = rng.choice(["0.0.0.0", "10.0.0.1", "10.0.0.2"])
+    sip = la if la != "0.0.0.0" else rng.choice(["10.0.0.1", "10.0.0.2"])
+    cur = rng.choice([49152, 49153, 50000, 65534, 65535])
+    script = [["listen", 0, la, port]]                                    # handle 0
+    if variant == 2:
+        src = [RAW_SRC4, 30000 + rng.randrange(100)]
+        script += [["raw_tcp", "syn", src, [sip, port], 0], ["egress"], ["raw_tcp", "rst", src, [sip, port], 0],
+                   ["egress"], ["pump"], ["close", 0], ["pump"],
+                   ["listen", 0, la, port], ["close", 1], ["listen", 0, sip, port], ["bind_udp", 0, sip, port]]
+        return {"mode": "net", "cfg": {"hosts": hosts}, "script": script, "flavour": "passive-close"}
+    script += [["set_cursor", 1, cur], ["connect", 1, [sip, port]], ["pump"], ["poll", 1], ["accept", 0]]   # handles 1 (client), 2 (server side)
+    first, second = (1, 2) if variant == 0 else (2, 1)
+    script += [["close", first], ["pump"], ["recv_all"], ["close", second], ["pump"]]
+    for _ in range(rng.randrange(0, 3)):
+        script.append(["pump"])                                           # silence
+    # the client's (address, ephemeral port) is free again, for an explicit bind and for port 0
+    script += [["listen", 1, "10.0.1.1", cur], ["close", 3], ["set_cursor", 1, cur], ["listen", 1, rng.choice(["10.0.1.1", "0.0.0.0"]), 0]]
+    # the listener's key is free again once the listener is gone too
+    script += [["close", 0], ["pump"], ["listen", 0, la, port], ["close", 5], ["listen", 0, sip, port], ["close", 6],
+               ["listen", 0, "0.0.0.0", port], ["recv_all"]]
+    return {"mode": "net", "cfg": {"hosts": hosts}, "script": script, "flavour": "passive-close"}
+
+
 def gen_alloc(rng):
     lo = rng.choice([1, 10, 1000, 49152, 65530])
     size = rng.randrange(1, 7)
